@@ -13,7 +13,8 @@ func blockStringValue(raw string) string {
 	lines := strings.Split(raw, "\n")
 
 	commonIndent := math.MaxInt32
-	for _, line := range lines {
+	// the first line is not considered when computing the common indent
+	for _, line := range lines[1:] {
 		indent := leadingWhitespace(line)
 		if indent < len(line) && indent < commonIndent {
 			commonIndent = indent
